@@ -44,11 +44,14 @@ def session_job(spec):
         # requantize / to_tim / to_spec take; the sessions of a job run in ONE process, so whatever a call leaves behind
         # (a default argument, a cached header) is there for the next
         plain = bool(s.get("plain")) and src_nbits != nbits and (c * src_nbits) % 8 == 0
-        hdr = _hdr(d, f"{spec['id']}_{si}", c if (src_nbits == nbits or plain) else 8, src_nbits)
+        # every third session starts from a header whose file name is a full archive path (well over 80 characters)
+        long_kw = {"extra": {"rawdatafile": "/archive/2026/10/01/" + "deep/" * 24 + f"scan_{si:04d}.fil"}} if si % 3 == 1 else {}
         path = str(d / f"out_{spec['id']}_{si}.fil")
         ev = []
         top = min(2 ** nbits - 1, 1000) if nbits < 32 else 1000
+        hl = 0
         try:
+            hdr = _hdr(d, f"{spec['id']}_{si}", c if (src_nbits == nbits or plain) else 8, src_nbits, **long_kw)   # reads a well-formed file back
             if s.get("updates"):
                 w = hdr.prep_outfile(path, updates={"nchans": c, "source": "requant"}, nbits=nbits)
             else:
@@ -104,12 +107,13 @@ def roundtrip_job(spec):
     out = []
     for ri, r in enumerate(spec["trips"]):
         fmt, n = r["fmt"], r["n"]
-        base = _hdr(d, f"rt{spec['id']}_{ri}", r.get("nchans", 1) if fmt == "block" else 4, 8,
-                    tsamp=r["tsamp"], tstart=r["tstart"])
+        long_kw = {"extra": {"rawdatafile": "/archive/2026/10/01/" + "deep/" * 24 + f"scan_{ri:04d}.fil"}} if ri % 3 == 1 else {}
         stem = str(d / f"rt_{spec['id']}_{ri}")
         e = {"a": "roundtrip", "fmt": fmt, "n": n, "vals_in": [], "vals_out": [], "count_reader": -1, "tsamp_ppb": 0,
              "tstart_us": 0, "dm_ppm": 0}
         try:
+            base = _hdr(d, f"rt{spec['id']}_{ri}", r.get("nchans", 1) if fmt == "block" else 4, 8,
+                        tsamp=r["tsamp"], tstart=r["tstart"], **long_kw)
             if fmt in ("tim", "dat"):
                 vals = rng.integers(-1000, 1000, size=n)
                 h = base.new_header({"nchans": 1, "nsamples": n, "dm": r["dm"], "nbits": 32, "filename": stem + ".x"})
